@@ -174,12 +174,20 @@ func (g *Gen) Unit(u string) []*ref.AEvent {
 		return []*ref.AEvent{ref.Q(ts, "shop", g.sp("BEGIN", g.Begin), cs), ref.TM(ts, ta),
 			ref.R(ts, ref.RowUpdate, ta, ref.RowChange{Before: rowA(k, label, 1), After: rowA(k, label+"'", 65535)}),
 			ref.Q(ts+1, "shop", g.sp("COMMIT", g.Commit), cs)}
+	case "txE":
+		// a transaction without changes (a GTID placeholder, a filtered replica)
+		return []*ref.AEvent{ref.Q(ts, "shop", g.sp("BEGIN", g.Begin), cs), ref.Q(ts+1, "shop", g.sp("COMMIT", g.Commit), cs)}
+	case "txEX":
+		return []*ref.AEvent{ref.Q(ts, "shop", g.sp("BEGIN", g.Begin), cs), ref.X(ts+1, uint64(9000+k))}
 	case UTxRollback:
 		return []*ref.AEvent{ref.Q(ts, "shop", g.sp("BEGIN", g.Begin), cs), ref.TM(ts, ta),
 			ref.R(ts, ref.RowDelete, ta, ref.RowChange{Before: rowA(k, label, 2)}),
 			ref.Q(ts+1, "shop", g.sp("ROLLBACK", g.Rollback), cs)}
 	case UDDL:
-		ddl := []string{"CREATE TABLE t%d (a int)", "ALTER TABLE item ADD COLUMN c%d int", "DROP TABLE IF EXISTS t%d", "TRUNCATE TABLE t%d", "RENAME TABLE a%d TO b", "create index i%d on item(id)", "Alter table item drop column c%d"}
+		ddl := []string{"CREATE TABLE t%d (a int)", "ALTER TABLE item ADD COLUMN c%d int", "DROP TABLE IF EXISTS t%d", "TRUNCATE TABLE t%d", "RENAME TABLE a%d TO b", "create index i%d on item(id)", "Alter table item drop column c%d",
+			// stored programs whose bodies hold the words the grouping looks for
+			"CREATE PROCEDURE p%d() BEGIN START TRANSACTION; UPDATE item SET qty=1; COMMIT; END", "CREATE DEFINER=`root`@`%%` TRIGGER g%d AFTER INSERT ON item FOR EACH ROW BEGIN INSERT INTO audit VALUES (1); END",
+			"CREATE EVENT e%d ON SCHEDULE EVERY 1 DAY DO BEGIN DELETE FROM item; ROLLBACK; END", "ALTER TABLE item COMMENT 'begin; commit; xa start %d'", "DROP PROCEDURE IF EXISTS `commit%d`"}
 		return []*ref.AEvent{ref.Q(ts, "shop", fmt.Sprintf(ddl[g.n%len(ddl)], k), cs)}
 	case USet:
 		return []*ref.AEvent{ref.Q(ts, "", fmt.Sprintf("SET PASSWORD FOR 'u%d'@'%%'='x'", k))}
@@ -299,7 +307,7 @@ func (g *Gen) Build(units []string) *ref.History {
 
 func isCommitUnit(u string) bool {
 	switch u {
-	case UTxXID, UTxCommit, UTxRollback, UDDL, UAutoRows, UStmtOut, UStmtIn, UTx2, UTxDDL, USet, "pattern", UTxSplit, UTxFK, UAutoSplit, UTxFlagged, UTxSave:
+	case "txE", "txEX", UTxXID, UTxCommit, UTxRollback, UDDL, UAutoRows, UStmtOut, UStmtIn, UTx2, UTxDDL, USet, "pattern", UTxSplit, UTxFK, UAutoSplit, UTxFlagged, UTxSave:
 		return true
 	}
 	return false
